@@ -370,7 +370,11 @@ func (i *IfUnless) getBackupContext(
 
 		// a == 1
 		default:
-			err := e.Eval(&p, ctx, nextT)
+			// (on the lookahead copy: the real evaluation records the call)
+			lookaheadCtx := ctx
+			lookaheadCtx.IsLookahead = true
+
+			err := e.Eval(&p, lookaheadCtx, nextT)
 			if err != nil {
 				return zaoriks, err
 			}
